@@ -192,21 +192,23 @@ def Ctx.findSubclass (Γ : Ctx) (clazz : ClassId) (qname : QN) : Option ClassId 
     if cmro.contains tp then false       -- issubclass(clazz, tp)
     else (((Γ.find tp).map (·.mro)).getD [tp]).any (cmro.contains ·)
 
-/-- `XmlContext.fetch(clazz, parent_ns, xsi_type)` (metadata is exported per class) -/
-def Ctx.fetch (Γ : Ctx) (clazz : ClassId) (xsiType : Option QN) : Except Err XmlMeta :=
-  match Γ.find clazz with
+/-- `XmlContext.fetch(clazz, parent_ns, xsi_type)` without the cache: the metadata of a
+class is looked up under the parent namespace of this use (the cache of the real
+context is the subject of C14; generators keep every class under one parent namespace) -/
+def Ctx.fetch (Γ : Ctx) (clazz : ClassId) (pns : Option Str) (xsiType : Option QN) : Except Err XmlMeta :=
+  match (Γ.find clazz).bind (·.metaFor pns) with
   | none => .error (.context "unknown class")
-  | some ci =>
+  | some m =>
     match xsiType with
     | some xt =>
-      if ci.meta.targetQName ≠ some xt then
+      if m.targetQName ≠ some xt then
         match Γ.findSubclass clazz xt with
-        | some sub => match Γ.find sub with
-          | some si => .ok si.meta
+        | some sub => match (Γ.find sub).bind (·.metaFor pns) with
+          | some sm => .ok sm
           | none => .error (.context "unknown class")
-        | none => .ok ci.meta
-      else .ok ci.meta
-    | none => .ok ci.meta
+        | none => .ok m
+      else .ok m
+    | none => .ok m
 
 /-! ### parameters under construction -/
 
@@ -245,10 +247,11 @@ structure ElState where
   wrappers : List (QN × List QN) := []
 
 /-- `ElementNode.build_element_node` : `ok none` = the method returned `None` -/
-def buildElementNode (Γ : Ctx) (clazz : ClassId) (derived nillable : Bool) (attrs : List (QN × Str))
+def buildElementNode (Γ : Ctx) (pns : Option Str) (clazz : ClassId) (derived nillable : Bool)
+    (attrs : List (QN × Str))
     (nsmap : NsMap) (derivedFactory : Bool) (xsiType : Option QN) (xsiNil : Option Bool) :
     Except Err (Option Node) := do
-  let m ← Γ.fetch clazz xsiType
+  let m ← Γ.fetch clazz pns xsiType
   let nillable := nillable || m.nillable
   match xsiNil with
   | some n => if nillable ≠ n then return none
@@ -263,7 +266,7 @@ def buildNode (e : BEnv) (Γ : Ctx) (pmeta : XmlMeta) (qname : QN) (var : XmlVar
   let xt ← xsiTypeOf e attrs nsmap
   let xn := xsiNilOf attrs
   match var.clazz with
-  | some c => buildElementNode Γ c false var.nillable attrs nsmap true xt xn
+  | some c => buildElementNode Γ pmeta.namespace c false var.nillable attrs nsmap true xt xn
   | none =>
     if !var.anyType && !var.isWildcard then return some (.primitive pmeta var nsmap)
     let datatype := xt.bind fun q => (Γ.datatypes.find? (·.1 = q)).map (·.2)
@@ -274,14 +277,14 @@ def buildNode (e : BEnv) (Γ : Ctx) (pmeta : XmlMeta) (qname : QN) (var : XmlVar
     | none =>
       let clazz1 := xt.bind Γ.findType
       let node1 ← match clazz1 with
-        | some c => buildElementNode Γ c derived var.nillable attrs nsmap true xt xn
+        | some c => buildElementNode Γ pmeta.namespace c derived var.nillable attrs nsmap true xt xn
         | none => pure none
       match node1 with
       | some n => return some n
       | none =>
         let clazz2 := if var.processContents ≠ "skip".toList then Γ.findType qname else clazz1
         let node2 ← match clazz2 with
-          | some c => buildElementNode Γ c false var.nillable attrs nsmap false xt xn
+          | some c => buildElementNode Γ pmeta.namespace c false var.nillable attrs nsmap false xt xn
           | none => pure none
         match node2 with
         | some n => return some n
@@ -562,7 +565,7 @@ end
 def parseRoot (e : BEnv) (Γ : Ctx) (cfg : ParserConfig) (clazz : ClassId) : Tree → Except Err (Val × Nat)
   | .node q a n t c tl => do
     let xt ← xsiTypeOf e a n
-    let m ← Γ.fetch clazz xt
+    let m ← Γ.fetch clazz none xt
     let derived := !(xt.isNone || m.qname = q)
     let out ← parseNode e Γ cfg (.element m a n derived (if derived then xt else none) (xsiNilOf a))
       (.node q a n t c tl)
